@@ -1,8 +1,8 @@
 (* C04 - Results stored in a run folder reload exactly, from any process.
    Only statements here; every proof is `exact <lemma>` into Proofs/. *)
 From Verif Require Import Base.Prelude Base.StrUtil Base.Index Base.NdArr Model.MapSpec Model.MapRun Model.MapDenote
-  Model.SymBody Model.RunInfoCodec Model.FSStore Corr.Run_C04
-  Proofs.RunInfoFacts Proofs.FSStoreFacts Proofs.ReloadFacts Proofs.C04Witness.
+  Model.SymBody Model.RunInfoCodec Model.FSStore Corr.Run_C04 Corr.Valid_C04
+  Proofs.RunInfoFacts Proofs.FSStoreFacts Proofs.ReloadFacts Proofs.ConsistentFacts Proofs.C04Witness.
 
 (* ---------------------------------------------------------------------------------------------------------- *)
 (* 1. RunInfo.load (RunInfo.dump ri) = ri : shapes, masks (keyed by a name or a tuple of names), internal shapes
@@ -26,11 +26,17 @@ Example C04_runinfo_example_wf :
        ri_version := s "0.1" |} = true.
 Proof. vm_compute. reflexivity. Qed.
 
+(* the side condition holds for the RunInfo that RunInfo.create records for any valid request *)
+Theorem C04_recorded_runinfo_wf : forall c f,
+  finish false c = Ok f -> valid_request c = true -> wf_run_info (f_info f) = true.
+Proof. exact run_info_of_run_wf. Qed.
+Print Assumptions C04_recorded_runinfo_wf.
+
 (* Without the side condition "tuple keys have >= 2 components" the round trip is false: ",".join(("y",)) == "y", so a
    storage dict {("y",): "dict", "": "file_array"} reloads as {"y": "dict", ...} and selects another backend than the run
-   used.  Replayed on the real code (repo 2366f61: load_outputs raises FileNotFoundError) and repaired by repo commit
-   2f471f8 (RunInfo.create normalises 1-tuple storage keys, Model/FSStore.normalize_storage), so that no run records
-   such a key any more. *)
+   used.  Replayed on the real code (before the repair load_outputs raises FileNotFoundError) and repaired by the repo
+   commit "fix: treat a 1-tuple storage key as the bare output name ..." (RunInfo.create normalises 1-tuple storage keys,
+   Model/FSStore.normalize_storage), so that no run records such a key any more (C04_recorded_runinfo_wf). *)
 Theorem C04_runinfo_roundtrip_unguarded_refuted :
   exists ri ri', decode (s "V") (encode ri) = Ok ri' /\ ri' <> ri
                  /\ storage_class (ri_storage ri) (KName (s "y")) = Ok FileArrayK
@@ -41,71 +47,66 @@ Print Assumptions C04_runinfo_roundtrip_unguarded_refuted.
 (* ---------------------------------------------------------------------------------------------------------- *)
 (* 2. Reload = the run's results.  `finish false c = Ok f`: the run of request c (Model/MapRun.v) finished with final
       state f_state f and left the folder f_world f (RunInfo.__post_init__, element files, single-output files,
-      _maybe_persist_memory).  For every output o of a function whose storage persists (file_array, or dict /
-      shared_memory_dict with persist_memory), load_outputs(o) in ANY interpreter - `live` is the set of manager
-      processes alive there: the run's own for the same process, [] for a fresh one (FSStore.reopen) - returns the value
-      the run stored for o (third component of its r_out record), and leaves the folder exactly as it was.
-
-      PARTIAL: the extra hypothesis is `finished_consistent c f = true`, a decidable check relating the RunInfo the model
-      of RunInfo.create recorded to the outputs of the run (recorded MapSpec strings parse back; every mapped output has
-      its shape / mask / storage class recorded under its output_name key and is stored as a well-formed array of that
-      shape).  It is evaluated by the model on every correspondence case (last component of Run_C04.run) and was true on
-      all of them.
-      FULL (not proved):  the same statement with `finished_consistent c f = true` replaced by
-        request_ok (c_funcs c) (c_inputs c) = true /\ names are identifiers /\ parse_print (C08, Proofs/MapSpecParse.v). *)
-Theorem C04_reload_eq_results_partial : forall c f live fn o,
-  finish false c = Ok f -> finished_consistent c f = true ->
+      _maybe_persist_memory).  valid_request c (Corr/Valid_C04.v): unique names without "," and "/", well-formed
+      MapSpecs of rank >= 1 whose outputs are the function's outputs, storage-dict keys are names or non-empty tuples.
+      For every output o of a function whose storage persists (file_array, or dict / shared_memory_dict with
+      persist_memory), load_outputs(o) in ANY interpreter - `live` is the set of manager processes alive there: the run's
+      own for the same process, [] for a fresh one (FSStore.reopen) - returns the value the run stored for o (third
+      component of its r_out record; C01 proves it equals the returned value and the MapSpec denotation), and leaves the
+      folder exactly as it was. *)
+Theorem C04_reload_eq_results : forall c f live fn o,
+  finish false c = Ok f -> valid_request c = true ->
   In fn (c_funcs c) -> In o (fouts fn) -> kind_persists c fn = true ->
   let w := {| w_root := root_name; w_files := w_files (f_world f); w_live := live |} in
   exists o' returned stored,
     find (fun x => str_eqb (fst (fst x)) o) (r_out (f_state f)) = Some (o', returned, stored)
     /\ load_outputs version_name w o = Ok (Some (PVal stored), w).
-Proof. exact reload_eq_results_stmt. Qed.
-Print Assumptions C04_reload_eq_results_partial.
+Proof. exact reload_eq_results_full. Qed.
+Print Assumptions C04_reload_eq_results.
 
 (* the fresh interpreter and the run's own interpreter, spelled out *)
-Corollary C04_reload_fresh_partial : forall c f fn o,
-  finish false c = Ok f -> finished_consistent c f = true ->
+Corollary C04_reload_fresh : forall c f fn o,
+  finish false c = Ok f -> valid_request c = true ->
   In fn (c_funcs c) -> In o (fouts fn) -> kind_persists c fn = true ->
   exists o' returned stored,
     find (fun x => str_eqb (fst (fst x)) o) (r_out (f_state f)) = Some (o', returned, stored)
     /\ load_outputs version_name (reopen (f_world f)) o = Ok (Some (PVal stored), reopen (f_world f)).
-Proof. exact reload_fresh_stmt. Qed.
-Print Assumptions C04_reload_fresh_partial.
+Proof. exact reload_fresh_full. Qed.
+Print Assumptions C04_reload_fresh.
 
-Corollary C04_reload_same_process_partial : forall c f fn o,
-  finish false c = Ok f -> finished_consistent c f = true ->
+Corollary C04_reload_same_process : forall c f fn o,
+  finish false c = Ok f -> valid_request c = true ->
   In fn (c_funcs c) -> In o (fouts fn) -> kind_persists c fn = true ->
   exists o' returned stored,
     find (fun x => str_eqb (fst (fst x)) o) (r_out (f_state f)) = Some (o', returned, stored)
     /\ load_outputs version_name (f_world f) o = Ok (Some (PVal stored), f_world f).
-Proof. exact reload_same_process_stmt. Qed.
-Print Assumptions C04_reload_same_process_partial.
+Proof. exact reload_same_process_full. Qed.
+Print Assumptions C04_reload_same_process.
 
 (* RunInfo.load gives back the run's RunInfo, the inputs and the defaults *)
-Theorem C04_runinfo_reload_partial : forall c f live,
-  finish false c = Ok f -> finished_consistent c f = true ->
+Theorem C04_runinfo_reload : forall c f live,
+  finish false c = Ok f -> valid_request c = true ->
   let w := {| w_root := root_name; w_files := w_files (f_world f); w_live := live |} in
   runinfo_load version_name w
   = Ok ({| li_info := f_info f;
            li_inputs := map (fun kv => (fst kv, PVal (snd kv))) (c_inputs c);
            li_defaults := PEnv (pipeline_defaults (c_funcs c)) |}, w).
-Proof. exact runinfo_reload_stmt. Qed.
-Print Assumptions C04_runinfo_reload_partial.
+Proof. exact runinfo_reload_full. Qed.
+Print Assumptions C04_runinfo_reload.
 
 (* 3. loading is idempotent and does not modify the folder: every load_outputs (persisted or not) returns the world it
       was given, hence a second load sees the same files and returns the same value *)
-Theorem C04_reload_idempotent_partial : forall c f live fn o,
-  finish false c = Ok f -> finished_consistent c f = true -> In fn (c_funcs c) -> In o (fouts fn) ->
+Theorem C04_reload_idempotent : forall c f live fn o,
+  finish false c = Ok f -> valid_request c = true -> In fn (c_funcs c) -> In o (fouts fn) ->
   let w := {| w_root := root_name; w_files := w_files (f_world f); w_live := live |} in
   exists v w', load_outputs version_name w o = Ok (v, w') /\ w' = w /\ load_outputs version_name w' o = Ok (v, w').
-Proof. exact reload_idempotent_stmt. Qed.
-Print Assumptions C04_reload_idempotent_partial.
+Proof. exact reload_idempotent_full. Qed.
+Print Assumptions C04_reload_idempotent.
 
 (* non-vacuity: a run with a tuple-output function with an internal axis under a tuple storage key, a reduction, a
    single output, the "" default, a bare-int internal shape satisfies all hypotheses *)
 Example C04_example_finishes :
-  exists f, finish false mixed_case = Ok f /\ finished_consistent mixed_case f = true
+  exists f, finish false mixed_case = Ok f /\ valid_request mixed_case = true /\ finished_consistent mixed_case f = true
             /\ wf_run_info (f_info f) = true
             /\ forallb (kind_persists mixed_case) (c_funcs mixed_case) = true
             /\ length (f_outs f) = 4.
@@ -114,7 +115,8 @@ Proof. exact mixed_case_finishes. Qed.
 (* ---------------------------------------------------------------------------------------------------------- *)
 (* 4. The persist protocol of shared_memory_dict BEFORE the repair (the DictProxy itself was pickled: FS content
       ProxyHandle) violates the property in a fresh interpreter; the legacy model reproduces the observation recorded from
-      the real unrepaired code exactly.  Repaired by repo commit efd26f1; `run` models the repaired code. *)
+      the real unrepaired code exactly.  Repaired in the repo by commit 7bf0304 ("DictArray.persist writes the contents
+      of the mapping, not a DictProxy"); `run` models the repaired code. *)
 Theorem C04_reload_shared_legacy_refuted :
   exists c, request_ok (c_funcs c) (c_inputs c) = true /\ spec_ok c (run_with true c) = false
             /\ run_with true c = shared_fresh_unrepaired_obs /\ spec_ok c (run c) = true.
